@@ -14,9 +14,10 @@ CLAIMED = ["C01", "C02", "C03", "C04", "C05", "C06", "C07", "C08", "C09", "C10",
 CHECKS = {
     "C13": dict(
         pkg="props/c13", level="exploration",
+        builds={"default": "", "race": ""},
         technique="property-based testing (rapid) + exhaustive small-key enumeration against independent reference partitioners",
         level_text=("Differential against independently written FNV-1a/CRC-32/murmur2 partitioners: every 0..2-byte key x partition counts "
-                    "enumerated, longer keys generated; model-based sequences for RoundRobin and LeastBytes, incl. concurrent callers. Hash / ReferenceHash with a user-supplied Hasher: values chosen directly at the sign boundaries, and stateful hashers (crc32, fnv) over call sequences; LeastBytes and RoundRobin in spin-barrier rounds (N simultaneous calls pick what some sequential order of them picks: N distinct partitions from a balanced LeastBytes state, the fixed multiset of the round for RoundRobin) and with per-partition totals beyond 2^32 bytes. "
+                    "enumerated, longer keys generated; model-based sequences for RoundRobin and LeastBytes, incl. concurrent callers. Hash / ReferenceHash with a user-supplied Hasher: values chosen directly at the sign boundaries, and stateful hashers (crc32, fnv) over call sequences; one shared hashing balancer used by 2-16 goroutines at once (also in a race-detector build), every answer compared with the reference; LeastBytes and RoundRobin in spin-barrier rounds (N simultaneous calls pick what some sequential order of them picks: N distinct partitions from a balanced LeastBytes state, the fixed multiset of the round for RoundRobin) and with per-partition totals beyond 2^32 bytes. "
                     "Exploration is the right level: the domain is unbounded, but the hash functions have no key-length-specific branches beyond length mod 4."),
         level_note="trusts the reference formulas (DESIGN.md A.4) and that Writer offers partitions 0..n-1",
         rule=("cases = (balancer, key, partition count) triples, RoundRobin call sequences and LeastBytes size sequences; "
@@ -32,6 +33,8 @@ CHECKS = {
             dict(run="TestCustomHasher", checks_quick=5000, checks_thorough=200000),
             dict(run="TestCustomHasherSequences", checks_quick=3000, checks_thorough=100000),
             dict(run="TestLeastBytesLargeTotals", checks_quick=200, checks_thorough=5000),
+            dict(run="TestConcurrentHash", checks_quick=60, checks_thorough=1500),
+            dict(run="TestConcurrentHash", build="race", checks_quick=40, checks_thorough=600),
             dict(run="TestRoundRobin", checks_quick=3000, checks_thorough=60000, shards_thorough=2),
             dict(run="TestLeastBytes", checks_quick=3000, checks_thorough=60000, shards_thorough=2),
         ],
@@ -60,7 +63,7 @@ CHECKS = {
         level_text=("Every registered API x version x direction: generated field values are encoded by the library and strictly decoded by the "
                     "reference codec (size prefix, header, every field, no trailing bytes; byte-identical for non-flexible versions), "
                     "reference-encoded responses (with unknown tagged fields) are decoded by the library and compared field by field, one frame consumed exactly; "
-                    "library-only round trip; both the default and the `unsafe` build of the protocol package. The hand-written Conn codec: every request-emitting Conn operation (ApiVersions, Brokers, Controller, ReadPartitions, ReadOffset/First/Last, Seek, ReadBatchWith, WriteMessages / WriteCompressedMessages, CreateTopics, DeleteTopics) with generated arguments, client ids (empty, multi-byte, long) and broker version ceilings, and the group APIs through ConsumerGroup: the fake broker decodes each request strictly and the field values are compared with what the operation asked for; fetch responses are compared record by record under chunked delivery; for Conn.WriteMessages the key, value, timestamp and headers of every record on the wire are compared with the call's messages; a byte-by-byte sweep puts the second record set of a produce request across the encoder's 64 KiB page boundary. Exploration: values are sampled, (api,version,direction) is covered completely."),
+                    "library-only round trip; both the default and the `unsafe` build of the protocol package. The hand-written Conn codec: every request-emitting Conn operation (ApiVersions, Brokers, Controller, ReadPartitions, ReadOffset/First/Last, Seek, ReadBatchWith, WriteMessages / WriteCompressedMessages, CreateTopics, DeleteTopics) with generated arguments, client ids (empty, multi-byte, long) and broker version ceilings, and the group APIs through ConsumerGroup: the fake broker decodes each request strictly and the field values are compared with what the operation asked for; fetch responses are compared record by record under chunked delivery; for Conn.WriteMessages the key, value, timestamp and headers of every record on the wire are compared with the call's messages; a byte-by-byte sweep puts the second record set of a produce request across the encoder's 64 KiB page boundary. The conversion layer of kafka.Client (37 methods x every version): generated high-level requests are sent through a Transport to a scripted broker that advertises exactly one version; the captured frame is decoded strictly and compared with an expected body written independently from the documented meaning of the request fields, and the high-level response is compared with the field values of the generated response the broker encoded (fields derived from the context deadline, hard-coded by the library or without a member in the response struct are listed in the unit and not compared). Exploration: values are sampled, (api,version,direction) is covered completely."),
         level_note="trusts the pinned schema table refcodec/schema_table.go (reviewed against the Kafka message definitions; deviations listed in DESIGN.md) and the reference primitives (self-tested in setup)",
         rule=("case = (api, version, direction, generated value tree); rapid draws api and version uniformly from the 40 registered APIs, values from boundary-biased generators "
               "(null/empty/long strings, empty/null/>127-element arrays, int min/max, unknown tags). Non-trivial = at least one field present at that version has a non-default value; "
@@ -73,6 +76,7 @@ CHECKS = {
             dict(run="TestProducePageBoundary", checks=None, timeout=1800),
             dict(run="TestConnRequests", checks_quick=250, checks_thorough=3000, shards_quick=3, shards_thorough=8, timeout=2400),
             dict(run="TestGroupRequests", checks_quick=200, checks_thorough=3000, shards_quick=1, shards_thorough=4, timeout=2400),
+            dict(run="TestClientRequests", checks_quick=1500, shards_quick=2, checks_thorough=15000, shards_thorough=8, timeout=1500),
             dict(run="TestRequestEncode", build="unsafe", checks_quick=6000, checks_thorough=100000),
             dict(run="TestResponseDecode", build="unsafe", checks_quick=6000, checks_thorough=100000),
             dict(run="TestRoundTrip", build="unsafe", checks_quick=5000, checks_thorough=100000),
